@@ -6,7 +6,7 @@ FUN = ['FIX8::Session::process', 'Session::enforce', 'Session::sequence_check', 
        'Session::handle_resend_request (no persister)', 'Session::handle_logout', 'Session::handle_sequence_reset', 'Session::handle_outbound_reject', 'Session::stop',
        'Session::do_state_change', 'catch clauses of Session::process (f8Exception/force_logoff, std::exception)', 'SessionID::same_sender_comp_id/same_target_comp_id',
        'fast_atoi<unsigned>', 'exception constructors InvalidMsgSequence/MsgSequenceTooLow/BadSendingTime/BadCompidId/InvalidMessage/InvalidVersion/MissingMandatoryField/BadCheckSum']
-US = ['vf_copy.0:18', 'digits_value.0:8', 'raw_seq.0:8', 'str_eq.0:3', 'main.0:3', 'main.1:8', 'main.2:3', 'main.3:6']
+US = sessin.US + ['digits_value.0:8', 'raw_seq.0:8', 'str_eq.0:3', 'main.0:3', 'main.1:8', 'main.2:3', 'main.3:6']
 
 def run(ctx):
     kf = known_findings('C19'); defs = kf_defines(kf)
